@@ -1,0 +1,67 @@
+/*
+ * Copyright (C) 2024 Nuts community
+ *
+ * This program is free software: you can redistribute it and/or modify
+ * it under the terms of the GNU General Public License as published by
+ * the Free Software Foundation, either version 3 of the License, or
+ * (at your option) any later version.
+ *
+ * This program is distributed in the hope that it will be useful,
+ * but WITHOUT ANY WARRANTY; without even the implied warranty of
+ * MERCHANTABILITY or FITNESS FOR A PARTICULAR PURPOSE.  See the
+ * GNU General Public License for more details.
+ *
+ * You should have received a copy of the GNU General Public License
+ * along with this program.  If not, see <https://www.gnu.org/licenses/>.
+ *
+ */
+
+package jwx
+
+import (
+	"bytes"
+	"crypto/elliptic"
+	"fmt"
+
+	"github.com/lestrrat-go/jwx/v2/jwa"
+	"github.com/lestrrat-go/jwx/v2/jwk"
+)
+
+// ValidateECCoordinates returns an error if the given key is an EC key with a coordinate that does not fit the curve.
+// jwx does not check the length of the coordinates when parsing a JWK, but jwk.Key.Thumbprint(), jwk.AssignKeyID() and
+// jwk.FromRaw() panic (big.Int.FillBytes()) on a coordinate that is larger than the curve size.
+// It must be called on JWKs from untrusted sources before any of those functions is used.
+// Other key types, and EC keys on curves that are not supported (refused by jwx with an error), are not checked.
+func ValidateECCoordinates(key jwk.Key) error {
+	var curveAlgorithm jwa.EllipticCurveAlgorithm
+	coordinates := map[string][]byte{}
+	switch ecKey := key.(type) {
+	case jwk.ECDSAPublicKey:
+		curveAlgorithm = ecKey.Crv()
+		coordinates[jwk.ECDSAXKey], coordinates[jwk.ECDSAYKey] = ecKey.X(), ecKey.Y()
+	case jwk.ECDSAPrivateKey:
+		curveAlgorithm = ecKey.Crv()
+		coordinates[jwk.ECDSAXKey], coordinates[jwk.ECDSAYKey], coordinates[jwk.ECDSADKey] = ecKey.X(), ecKey.Y(), ecKey.D()
+	default:
+		return nil
+	}
+	var curve elliptic.Curve
+	switch curveAlgorithm {
+	case jwa.P256:
+		curve = elliptic.P256()
+	case jwa.P384:
+		curve = elliptic.P384()
+	case jwa.P521:
+		curve = elliptic.P521()
+	default:
+		return nil
+	}
+	maxLength := (curve.Params().BitSize + 7) / 8
+	for name, value := range coordinates {
+		// leading zeroes do not make the number larger
+		if length := len(bytes.TrimLeft(value, "\x00")); length > maxLength {
+			return fmt.Errorf("invalid EC key: '%s' is %d bytes, which is more than curve %s allows (%d bytes)", name, length, curveAlgorithm, maxLength)
+		}
+	}
+	return nil
+}
